@@ -134,3 +134,20 @@ def random_rules(rng, n_rules=None):
         elif k == 'cons': rules.append(('cons', rng.choice(I), rng.choice(N), rng.choice(N)))
         else: rules.append(('dup', rng.choice(N), rng.choice(N), rng.choice(N)))
     return rules
+
+
+def structured_rules(rng):
+    """family aimed at the combination of consumption alternatives: S pushes an index, a duplication spreads the stack over two variables,
+    each of which has 0-2 consumption rules per index, leading to variables with or without end rules"""
+    I = ['f', 'g'][:rng.choice([1, 2, 2])]
+    rules = [('prod', 'S', 'A', i) for i in I if rng.random() < 0.8] or [('prod', 'S', 'A', I[0])]
+    rules.append(('dup', 'A', 'C1', 'C2'))
+    Ds = ['D1', 'D2', 'D3']
+    for c in ('C1', 'C2'):
+        for i in I:
+            for d in rng.sample(Ds, rng.choice([0, 1, 1, 2])): rules.append(('cons', i, c, d))
+    for d in Ds:
+        if rng.random() < 0.6: rules.append(('end', d, rng.choice(['a', 'b', None])))
+    if rng.random() < 0.3: rules.append(('prod', 'D3', 'A', rng.choice(I)))
+    rng.shuffle(rules)
+    return rules
